@@ -16,6 +16,16 @@ def enumerate_states(n, d, v, frac=1.0, ramp=False, seed=SEED, invariants=("Emit
     return tlc.run("Kauri", c, workers=NCPU, timeout=timeout), f"{len(chunks)}/{nch}"
 
 
+def probe_state(probe, timeout=300):
+    """The candidate table of ONE given state (Kauri.tla ProbeInit): probe = dict(X, kn, kmax, minleaf, leafOf, clOf, nL, nC)."""
+    import json as _json
+    n, d = len(probe["X"]), len(probe["X"][0])
+    c = tlc.cfg(init="ProbeInit", next="ProbeNext", constants=dict(N=n, D=d, V=max(max(r) for r in probe["X"]), NCH=1, CHUNKS={0}, RAMP=False),
+                invariants=["Emit", "StatesWellFormed", "GainIsIncrease"])
+    r = tlc.run("Kauri", c, workers=1, timeout=timeout, extra_files={"probe.json": _json.dumps(probe)}, env={"PROBE_FILE": "probe.json"})
+    return r
+
+
 def encode_state(case, max_leaves=None):
     """(Y, Z) exactly as Kauri.fit holds them: Z leaf x sample, Y cluster x leaf."""
     n, kmax, nL = case["n"], case["kmax"], case["nL"]
